@@ -47,7 +47,7 @@ BOUND = {
     "thorough": "tr: subsets <=4; sheet: same with 6-letter alphabet; lang: 14x14; row: L(4,3) x 0..2 triggers",
 }
 # as-built additions to the bound (kept next to BOUND so that the evidence reports them)
-BOUND = {k: v + "; plus: " + 'labelled and unlabelled groups / repeats with table-list, field-list and custom appearances; unlabeled choices with repeated names under allow_choice_duplicates (27 name triples x 7 masks); both id headers with one cell blank / swapped order' for k, v in BOUND.items()}
+BOUND = {k: v + "; plus: " + 'choice advisories with clean_text_values=no; language names with several bracketed parts; supported sheet names in another case without data rows; labelled and unlabelled groups / repeats with table-list, field-list and custom appearances; unlabeled choices with repeated names under allow_choice_duplicates (27 name triples x 7 masks); both id headers with one cell blank / swapped order' for k, v in BOUND.items()}
 
 SUPPORTED = {"survey", "choices", "settings", "external_choices", "osm", "entities"}
 SV_COLS = ["label", "hint", "guidance_hint", "constraint_message", "required_message", "image", "audio", "video", "big-image"]
@@ -316,7 +316,8 @@ def build_sheet(key, name, present):
 
 
 def near_expected(key, name):
-    return name is not None and lev(name.lower(), key) <= 2 and name not in SUPPORTED and not name.startswith("_")
+    # (a supported name in another case is that sheet itself, not a misspelling of it)
+    return name is not None and lev(name.lower(), key) <= 2 and name.lower() not in SUPPORTED and not name.startswith("_")
 
 
 def gen_sheet(tier):
@@ -381,6 +382,7 @@ def check_sheet(case):
 
 # ------------------------------------------------------------------ lang ----------------
 LABELS_Q = ["default", "English (en)", "English", "en", "Klingon (tlh-x)", "French (fr)", "X ()", "e", "Acoli (ach)", "English(en)", "fr (fr"]
+LABELS_Q += ["Español (Latin America) (es)", "A (b) (zz-not)", "(x) (fr)"]
 LABELS_T = [*LABELS_Q, "(en)", "English (EN)", "Español (es)"]
 
 
@@ -527,12 +529,17 @@ def gen_row(tier):
     for v in ("choice-nolabel-0", "choice-nolabel-1", "choice-nolabel-both", "choice-header-space", "dupid", "dupid-one",
               "dupid-idstring-blank", "dupid-formid-blank", "dupid-swapped"):
         yield {"g": "misc", "v": v}
+        if v.startswith("choice-"):
+            # the same advisory with text cleaning switched off (row numbers are still cited)
+            yield {"g": "misc", "v": v, "ctv": "no"}
     # unlabeled choices in lists with repeated choice names (allowed by the setting): every unlabeled row is named
     import itertools as _it
 
     for names in _it.product("xy", repeat=3):
         for mask in range(1, 8):
             yield {"g": "misc", "v": "dupnames", "names": list(names), "mask": mask}
+            if mask in (1, 5):
+                yield {"g": "misc", "v": "dupnames", "names": list(names), "mask": mask, "ctv": "no"}
 
 
 def check_row(case):
@@ -596,6 +603,8 @@ def check_misc(case):
         if all(case["mask"] >> i & 1 for i in range(3)):
             wb["choices"][0]["z"] = "1"
         wb["settings"] = [{"allow_choice_duplicates": "yes"}]
+    if case.get("ctv"):
+        wb.setdefault("settings", [{}])[0]["clean_text_values"] = case["ctv"]
     out = run_convert(wb)
     if out.kind != "ok":
         sig = f"internal-exception:{out.exc}:{out.where}" if out.kind == "crash" else f"rejected:misc:{v}"
